@@ -30,9 +30,12 @@ RULE = ("programs as in C01 plus handlers inserted at the front of exception_han
         "statement while it runs; exhaustive: all ordered "
         "pairs and triples of 29 behaviours over (test, tearDown, cleanup) and (setUp-registered cleanup, setUp); "
         "non-trivial = at least 2 raising statements or an inserted handler that claims a raised exception; "
-        "distinct = distinct JSON; plus @unittest.expectedFailure tests whose body ends in every behaviour with later stages raising, force_failure set on the failed-setUp path, fixtures with an unevaluable detail")
+        "distinct = distinct JSON; 500 (quick) / 12 000 (thorough) of the cases again on a test case configured with a RunTest factory of its own (run_tests_with / runTest= / @run_test_with x subclasses, functions, partial, callable objects, old-API factories); plus @unittest.expectedFailure tests whose body ends in every behaviour with later stages raising, force_failure set on the failed-setUp path, fixtures with an unevaluable detail")
 TRUSTED = ["a logging subclass of testtools.TestResult is the observation device (outcome calls, wasSuccessful())"]
 ASSUMPTIONS = ["the result object and addOnException handlers do not raise",
+               "configured RunTest factories: the Gallina input has no configuration; cases on a test case with a factory of "
+               "its own (incl. factories of the API before last_resort) are judged as the same program under the default "
+               "RunTest (C03_factory_irrelevant)",
                "user-inserted handlers report exactly one outcome to the result, and not a success",
                "fixtures raise single exceptions; new-style _setUp and fixture cleanups raise Exception-derived ones"]
 EXPLANATION = ("Theorems in coq/Props/C03.v over all programs; correspondence: TestCase.run of a generated "
@@ -44,7 +47,7 @@ FEATS_INS = frozenset(["insert", "insert-any", "fixture"])   # handlers (any cla
 
 
 def drive(case):
-    o = R.run_program(case["prog"], "FTestResult")[0]
+    o = R.run_program(case["prog"], "FTestResult", runner=case.get("runner"))[0]
     return {"outs": [e[1] for e in o["trace"] if e[0] == "out"], "ok": o["ok"]}
 
 
@@ -140,13 +143,16 @@ def generate(rng, tier):
         p = R.rand_prog(rng, feats=rng.choice([FEATS, FEATS, frozenset(), frozenset(), FEATS_INS]),
                         p_raise=rng.choice([0.4, 0.6, 0.9]))
         cases.append({"prog": p})
+    # the same programs on cases configured with a RunTest factory of their own (the Gallina input leaves it out)
+    cases += R.configured(cases, rng, 500 if tier == "quick" else 12000)
     return cases
 
 
 def shrink(case):
-    for p in R.shrink_prog(case["prog"]):
-        yield {"prog": p}
+    return R.shrink_configured(case, ({"prog": p} for p in R.shrink_prog(case["prog"])))
 
 
 def distribution(cases):
-    return R.prog_distribution([c["prog"] for c in cases])
+    d = R.prog_distribution([c["prog"] for c in cases])
+    d["runtest_factory"] = R.runner_distribution(cases)
+    return d
